@@ -12,6 +12,7 @@ inductive Check where
   | nsFromObjectName (p : String)        -- namespace = self._iparam_namespace_from_objectname(P, 'P')
   | nsFromInstancePath (p : String)      -- namespace = self._iparam_namespace_from_objectname(P.path, 'P.path')
   | nsFromPathIfNone (p : String)        -- if namespace is None and getattr(P.path, 'namespace', None) is not None: namespace = P.path.namespace
+  | nsFromInstancePathIfNone (p : String)  -- if namespace is None and isinstance(P, CIMInstance) and getattr(P.path, 'namespace', None) is not None: namespace = P.path.namespace
   | nsFromContext (p : String)           -- namespace = P[1]
   | className (p : String) (req : Bool)  -- P = self._iparam_classname(P, 'P', required=req)
   | instanceName (p : String) (req : Bool)
